@@ -16,6 +16,8 @@ type hostilePkt struct {
 	name   string
 	raw    []byte
 	ignore bool // must leave the transfer snapshot untouched
+	// prep (optional) runs before the snapshot is taken and returns the bytes to inject (nil: skip)
+	prep func() []byte
 }
 
 type e2Base struct {
@@ -399,6 +401,34 @@ func hostileAlphabet(p *scripted) []hostilePkt {
 	add("UNKNOWN/0xfe+DATA", true, chunkBytes(0xfe, 0, []byte{1, 2, 3, 4}), p.dataChunk(peerLast+1, 1, seq, 0, 53, 3, []byte("after-unknown"), 0))
 	add("ABORT", false, chunkBytes(wABORT, 0, wTLVBytes(12, []byte("bye"), true)))
 	add("ABORT/badcause", false, chunkBytes(wABORT, 0, []byte{0, 12, 0xff, 0xff}))
+	// a genuine answer delivered a second time: the endpoint probes, the probe is answered, and
+	// 300 ms later the network (or an observer on the path) delivers the same answer again
+	if p.a != nil {
+		out = append(out, hostilePkt{name: "HBACK/replayed", ignore: true, prep: func() []byte {
+			if p.a.getState() != established {
+				return nil
+			}
+			p.a.ActiveHeartbeat()
+			var ack []byte
+			for _, pk := range p.settle(time.Second) {
+				if pk.dec == nil {
+					continue
+				}
+				for _, c := range pk.dec.Chunks {
+					if c.Typ == wHEARTBEAT && len(c.Params) == 1 {
+						ack = p.pkt(chunkBytes(wHBACK, 0, wTLVBytes(1, c.Params[0].Val, true)))
+					}
+				}
+			}
+			if ack == nil {
+				return nil
+			}
+			p.inject(ack)
+			p.m.Sleep(300 * time.Millisecond)
+			p.settle(time.Second)
+			return ack
+		}})
+	}
 	// bundles
 	add("BUNDLE/sack+data", false, chunkBytes(wSACK, 0, wSackVal(ack, 1<<20, nil, nil)), p.dataChunk(peerLast+1, 1, seq, 0, 53, 3, []byte("bundled"), 0))
 	return out
@@ -449,6 +479,11 @@ func c03Scenario(spec *c03Spec, names *[]string) *Scenario {
 				}
 				h := list[i]
 				*names = append(*names, h.name)
+				if h.prep != nil {
+					if h.raw = h.prep(); h.raw == nil {
+						continue
+					}
+				}
 				var before string
 				if p.a != nil {
 					before = snapAssoc(p.a)
@@ -750,6 +785,7 @@ func propC03(j *Job) {
 	if n := len(hostileAlphabet(dummy)); n > nAlpha {
 		nAlpha = n
 	}
+	nAlpha += 2 // entries that exist only against a live association (answer to its own reset request, replayed HEARTBEAT-ACK)
 	nMut := len(byteMutants(dummy))
 	j.extra("alphabet", nAlpha)
 	j.extra("byte_mutants", nMut)
